@@ -73,6 +73,9 @@ type View struct {
 	H          *History
 	RInv, RRet uint64
 	AsOf       uint64 // Inf = no cut
+	// Skip, when set, excuses the absence of a cell from a read (a per-point condition of the request that
+	// the cell's value may fail); it never excuses a returned point.
+	Skip func(series, field int, ts int64) bool
 }
 
 func (v View) ret(r uint64) uint64 {
@@ -200,6 +203,9 @@ func (v View) CheckRead(series, field int, tmin, tmax int64, asc bool, got []Poi
 	}
 	sort.Slice(tss, func(i, j int) bool { return tss[i] < tss[j] })
 	for _, ts := range tss {
+		if v.Skip != nil && v.Skip(series, field, ts) {
+			continue
+		}
 		for _, w := range cells[ts] {
 			if v.definitelyLive(w, ds, ts) {
 				// only the last definitely-live write matters, but any one suffices for "cannot be absent"
